@@ -205,6 +205,7 @@ func runReps(p program, st *structure, reps int) [][]rec {
 					recs = append(recs, rec{G: g, I: i, In: in, Out: o, Call: c, Ret: t})
 				}
 				out[r][g] = recs
+				vk.Progress()
 			}
 		}(g)
 	}
@@ -348,7 +349,13 @@ func linProperty(t *testing.T, st *structure, quickN, thoroughN, reps int) {
 		nOverlap := 0
 		var sample []rec // a checked history of this program, preferably an overlapping one
 		if failure == "" {
-			hist := runReps(p, st, n)
+			// The operations of these structures do not wait for anything but each other: a program none of whose
+			// goroutines ever comes back has no history at all, let alone one with a sequential witness (the
+			// watchdog reports it when every goroutine is blocked; it does not judge slowness).
+			var hist [][]rec
+			vk.Guard(fmt.Sprintf("C14 %s linearizability violated: the program never completed - every goroutine is blocked inside an operation of the structure (or waiting for one that is)\nprogram: %s", st.name, enc), func() {
+				hist = runReps(p, st, n)
+			})
 			if r := checkAll(st, hist); r >= 0 {
 				failure = fmt.Sprintf("C14 %s linearizability violated: no sequential witness for this history (repetition %d of %d)\nprogram: %s\nhistory ([invocation,response] stamps of one atomic counter):\n%s",
 					st.name, r+1, n, enc, historyString(st, hist[r]))
